@@ -101,7 +101,7 @@ def generate(seed, tier):
             "cid_defect": swarm.choice(["unknown-type", "duplicate-field", "check-before-field"]),
             "log": swarm.choice([None, None, "debug", "info", "warning", "error", "critical"]),
             # a file name is a name, whatever characters it is made of
-            "name_style": swarm.choice(["plain", "plain", "plain", "brackets", "star", "question"])}
+            "name_style": swarm.choice(["plain", "plain", "plain", "brackets", "star", "question", "blanks"])}
 
 
 def _call_main(argv):
@@ -170,8 +170,11 @@ def execute(scenario):
             fs.store("cid.csv", lib.render_delimited(_cid_rows(scenario), ",", '"', "\n").encode("utf-8"))
         paths = []
         for number, entry in enumerate(scenario["files"]):
-            base = {"brackets": "data[%d]", "star": "all*%d", "question": "data?%d"}.get(scenario.get("name_style"), "data%d")
+            base = {"brackets": "data[%d]", "star": "all*%d", "question": "data?%d", "blanks": " data %d"}.get(
+                scenario.get("name_style"), "data%d")
             path = tabular.data_path(spec, base % number)
+            if scenario.get("name_style") == "blanks":
+                path += " "  # a name is a name, blanks at either end included
             paths.append(path)
             if entry["kind"] == "directory":
                 fs.mkdir(path)
